@@ -4,6 +4,7 @@
 import PasfmtModel.Proofs.ReconProps
 import PasfmtModel.Proofs.MlsBreaks
 import PasfmtModel.Proofs.CrlfFull
+import PasfmtModel.Proofs.CrlfPremise
 import PasfmtModel.Proofs.LayoutFull
 
 namespace Pasfmt.C09
@@ -163,6 +164,25 @@ theorem C09_format_full_crlf_config (cfg : Config) (alnum : Bytes → Bool) (s o
     (h : formatFull { cfg with crlf := false } alnum s = some outL) :
     formatFull { cfg with crlf := true } alnum s = some (crlfOf outL) :=
   formatFull_crlf_config cfg alnum s outL hok h
+
+/-- the first side condition of `C09_format_full_crlf_config` is a theorem: at the state the wrapper stage starts from,
+    every multi-line literal was scanned as one (parser and consolidators make no text literal, the token rules keep
+    every kind: `Proofs/ParserLiteralsConv.lean`), has its scanned text, and so ends in a quote
+    (`C12.scanned_mls_ends_quote`).  `crlfOk23` = `crlfOk` without that conjunct. -/
+theorem C09_crlfOk_of_23 (cfg : Config) (alnum : Bytes → Bool) (s : Bytes) (h : crlfOk23 cfg alnum s = true) :
+    crlfOk cfg alnum s = true :=
+  crlfOk_of_23 cfg alnum s h
+
+/-- **C09, second clause, for the closed model of the whole formatter, with two side conditions.**  As
+    `C09_format_full_crlf_config`, with `crlfOk23 cfg alnum s` for `crlfOk cfg alnum s`: only (2) if strings are
+    re-indented, the two runs agree on which literals the first string pass changes, and (3) every token of the lf
+    run's final state is safe to emit under the substitution - both computed from the lf run, at the state the wrapper
+    stage starts from.  No contract, no oracle. -/
+theorem C09_format_full_crlf_config23 (cfg : Config) (alnum : Bytes → Bool) (s outL : Bytes)
+    (hok : crlfOk23 cfg alnum s = true)
+    (h : formatFull { cfg with crlf := false } alnum s = some outL) :
+    formatFull { cfg with crlf := true } alnum s = some (crlfOf outL) :=
+  formatFull_crlf_config23 cfg alnum s outL hok h
 
 /-! Tests (labelled as tests: evaluated by the compiler with `#guard`, not theorems - the kernel cannot run the search).
     `agree s`: the crlf output is the substituted lf output; `ok s`: the side conditions of
